@@ -117,6 +117,12 @@ func Drain(iter gojq.Iter, ctx *PollCtx, maxOut int, recordPolls bool) (tr Trace
 			tr.End, tr.Err = EndError, err
 			return
 		}
+		if Huge(v, 200000) {
+			// a value whose unfolding is huge (shared structure duplicated by the program): comparing it
+			// would take longer than computing it; treat the rest as an inconclusive tail
+			tr.End = EndBudget
+			return
+		}
 		tr.Vals = append(tr.Vals, v)
 		if recordPolls && ctx != nil {
 			tr.PollAt = append(tr.PollAt, ctx.N)
@@ -356,4 +362,34 @@ func TraceDesc(t Trace) string {
 	}
 	sb.WriteString(endDesc(t))
 	return sb.String()
+}
+
+// Huge reports whether the tree unfolding of v has more than limit nodes.
+func Huge(v any, limit int) bool {
+	n := 0
+	var walk func(v any) bool
+	walk = func(v any) bool {
+		n++
+		if n > limit {
+			return true
+		}
+		switch x := v.(type) {
+		case []any:
+			for _, e := range x {
+				if walk(e) {
+					return true
+				}
+			}
+		case map[string]any:
+			for _, e := range x {
+				if walk(e) {
+					return true
+				}
+			}
+		case string:
+			n += len(x) / 64
+		}
+		return false
+	}
+	return walk(v)
 }
